@@ -123,6 +123,8 @@ type funcAnalysis struct {
 	ownerName   map[string]string
 	alias       map[types.Object]ast.Expr
 	inAlias     map[types.Object]bool
+	// incFlags: boolean locals defined from a test of P.Inc (fast := x.Inc == 1 && ...)
+	incFlags map[types.Object]map[string]bool
 }
 
 // findAliases records locals of Data/Stride struct type that are defined
@@ -500,7 +502,295 @@ func (fa *funcAnalysis) checkRowOffset(owner string, e ast.Expr, at token.Pos) {
 	}
 }
 
+// ContigExempt lists "function|vector" pairs whose contiguous use of a
+// strided vector's Data is legitimate, with the reason.
+var ContigExempt = map[string]string{
+	"mat.VecDense.UnmarshalBinary|v.mat":     "the receiver must be empty (panic otherwise) and was just sized by reuseAsNonZeroed, which allocates with Inc == 1",
+	"mat.VecDense.UnmarshalBinaryFrom|v.mat": "the receiver must be empty (panic otherwise) and was just sized by reuseAsNonZeroed, which allocates with Inc == 1",
+}
+
+// vectorPath returns the access path P when e is P.Data and P is a
+// strided vector (a struct with Data and Inc fields).
+func (fa *funcAnalysis) vectorPath(e ast.Expr) (string, ast.Expr, bool) {
+	for {
+		switch x := e.(type) {
+		case *ast.ParenExpr:
+			e = x.X
+			continue
+		case *ast.SliceExpr:
+			e = x.X
+			continue
+		}
+		break
+	}
+	sel, ok := e.(*ast.SelectorExpr)
+	if !ok || sel.Sel.Name != "Data" {
+		return "", nil, false
+	}
+	tv, ok := fa.info.Types[sel.X]
+	if !ok {
+		return "", nil, false
+	}
+	t := tv.Type
+	if p, ok := t.Underlying().(*types.Pointer); ok {
+		t = p.Elem()
+	}
+	st, ok := t.Underlying().(*types.Struct)
+	if !ok {
+		return "", nil, false
+	}
+	hasInc := false
+	for i := 0; i < st.NumFields(); i++ {
+		if st.Field(i).Name() == "Inc" {
+			hasInc = true
+		}
+	}
+	if !hasInc {
+		return "", nil, false
+	}
+	p, ok := fa.path(sel.X)
+	return p, sel.X, ok
+}
+
+// checkContiguous: P.Data of a strided vector used as if it were
+// contiguous (copy, range, unit-less index, handed to a *Unitary kernel)
+// must be control-dependent on a test of P.Inc.
+func (fa *funcAnalysis) checkContiguous(body ast.Node) {
+	par := map[ast.Node]ast.Node{}
+	var stack []ast.Node
+	ast.Inspect(body, func(n ast.Node) bool {
+		if n == nil {
+			stack = stack[:len(stack)-1]
+			return true
+		}
+		if len(stack) > 0 {
+			par[n] = stack[len(stack)-1]
+		}
+		stack = append(stack, n)
+		return true
+	})
+	guarded := func(at ast.Node, p string) bool {
+		for q := par[at]; q != nil; q = par[q] {
+			var conds []ast.Expr
+			switch s := q.(type) {
+			case *ast.IfStmt:
+				conds = append(conds, s.Cond)
+			case *ast.CaseClause:
+				conds = append(conds, s.List...)
+			case *ast.SwitchStmt:
+				if s.Tag != nil {
+					conds = append(conds, s.Tag)
+				}
+			}
+			for _, c := range conds {
+				found := false
+				ast.Inspect(c, func(n ast.Node) bool {
+					if sel, ok := n.(*ast.SelectorExpr); ok && sel.Sel.Name == "Inc" {
+						if pp, ok := fa.path(sel.X); ok && pp == p {
+							found = true
+						}
+					}
+					if id, ok := n.(*ast.Ident); ok {
+						// locals carrying the unit of P (inc := x.Inc; fast := x.Inc == 1 ...)
+						if o := core.ObjOf(fa.info, id); o != nil && (fa.units[o]["path:"+p] || fa.incFlags[o][p]) {
+							found = true
+						}
+					}
+					return !found
+				})
+				if found {
+					return true
+				}
+			}
+		}
+		return false
+	}
+	flag := func(at ast.Node, p string, how string) {
+		fa.res.Obligations++
+		fa.res.Count("contiguous_uses_of_vector_data", 1)
+		if guarded(at, p) {
+			return
+		}
+		if _, ok := ContigExempt[fa.name+"|"+fa.ownerName[p]]; ok {
+			fa.res.Count("contiguous_uses_exempt_by_table", 1)
+			return
+		}
+		fa.res.Add(core.Finding{
+			Rule: "STRIDE.contig",
+			Key:  fmt.Sprintf("STRIDE.contig|%s|%s", fa.name, fa.ownerName[p]),
+			Pos:  core.Pos(at.Pos()), Func: fa.name,
+			Msg:  fmt.Sprintf("the Data of strided vector %q is %s without any test of %s.Inc on the path: with Inc != 1 the wrong elements are used", fa.ownerName[p], how, fa.ownerName[p]),
+		})
+	}
+	ast.Inspect(body, func(n ast.Node) bool {
+		switch x := n.(type) {
+		case *ast.CallExpr:
+			if id, ok := x.Fun.(*ast.Ident); ok && id.Name == "copy" && len(x.Args) == 2 {
+				for _, a := range x.Args {
+					if p, _, ok := fa.vectorPath(a); ok {
+						flag(x, p, "copied as a contiguous slice")
+					}
+				}
+			}
+		case *ast.RangeStmt:
+			if p, _, ok := fa.vectorPath(x.X); ok {
+				flag(x, p, "ranged over as a contiguous slice")
+			}
+		}
+		return true
+	})
+}
+
+// checkStartOffsets: STRIDE.start. For a vector operand v whose function
+// computes a negative-increment start offset (an assignment with v's unit
+// under a condition `incV < 0`), every strided index of v must be anchored
+// at such an offset, directly or through locals.
+func (fa *funcAnalysis) checkStartOffsets(body ast.Node) {
+	// parents for condition lookup
+	par := map[ast.Node]ast.Node{}
+	var stack []ast.Node
+	ast.Inspect(body, func(n ast.Node) bool {
+		if n == nil {
+			stack = stack[:len(stack)-1]
+			return true
+		}
+		if len(stack) > 0 {
+			par[n] = stack[len(stack)-1]
+		}
+		stack = append(stack, n)
+		return true
+	})
+	negGuard := func(at ast.Node, owner string) bool {
+		for q := par[at]; q != nil; q = par[q] {
+			is, ok := q.(*ast.IfStmt)
+			if !ok {
+				continue
+			}
+			found := false
+			ast.Inspect(is.Cond, func(n ast.Node) bool {
+				be, ok := n.(*ast.BinaryExpr)
+				if !ok || (be.Op != token.LSS && be.Op != token.GTR && be.Op != token.LEQ && be.Op != token.GEQ) {
+					return true
+				}
+				u := map[string]bool{}
+				fa.exprUnits(be.X, u)
+				fa.exprUnits(be.Y, u)
+				if u[owner] {
+					found = true
+				}
+				return !found
+			})
+			if found {
+				return true
+			}
+		}
+		return false
+	}
+	starts := map[string]map[types.Object]bool{} // owner -> start offset locals
+	deps := map[types.Object]map[types.Object]bool{}
+	ast.Inspect(body, func(n ast.Node) bool {
+		as, ok := n.(*ast.AssignStmt)
+		if !ok || len(as.Lhs) != len(as.Rhs) {
+			return true
+		}
+		for i, l := range as.Lhs {
+			id, ok := l.(*ast.Ident)
+			if !ok {
+				continue
+			}
+			o := core.ObjOf(fa.info, id)
+			if o == nil || !isIntLike(o.Type()) {
+				continue
+			}
+			if deps[o] == nil {
+				deps[o] = map[types.Object]bool{}
+			}
+			ast.Inspect(as.Rhs[i], func(m ast.Node) bool {
+				if x, ok := m.(*ast.Ident); ok {
+					if d := core.ObjOf(fa.info, x); d != nil {
+						deps[o][d] = true
+					}
+				}
+				return true
+			})
+			u := map[string]bool{}
+			fa.exprUnits(as.Rhs[i], u)
+			for owner := range u {
+				if negGuard(as, owner) {
+					if starts[owner] == nil {
+						starts[owner] = map[types.Object]bool{}
+					}
+					starts[owner][o] = true
+				}
+			}
+		}
+		return true
+	})
+	if len(starts) == 0 {
+		return
+	}
+	anchored := func(e ast.Expr, owner string) bool {
+		seen := map[types.Object]bool{}
+		var visit func(o types.Object) bool
+		visit = func(o types.Object) bool {
+			if starts[owner][o] {
+				return true
+			}
+			if seen[o] {
+				return false
+			}
+			seen[o] = true
+			for d := range deps[o] {
+				if visit(d) {
+					return true
+				}
+			}
+			return false
+		}
+		ok := false
+		ast.Inspect(e, func(n ast.Node) bool {
+			if x, isID := n.(*ast.Ident); isID && !ok {
+				if o := core.ObjOf(fa.info, x); o != nil && visit(o) {
+					ok = true
+				}
+			}
+			return !ok
+		})
+		return ok
+	}
+	ast.Inspect(body, func(n ast.Node) bool {
+		ix, ok := n.(*ast.IndexExpr)
+		if !ok {
+			return true
+		}
+		owner, ok := fa.baseOwner(ix.X)
+		if !ok || starts[owner] == nil {
+			return true
+		}
+		u := map[string]bool{}
+		fa.exprUnits(ix.Index, u)
+		if !u[owner] {
+			return true // unit-stride fast path or constant index
+		}
+		fa.res.Obligations++
+		fa.res.Count("strided_vector_indices", 1)
+		if anchored(ix.Index, owner) {
+			return true
+		}
+		fa.res.Add(core.Finding{
+			Rule: "STRIDE.start",
+			Key:  fmt.Sprintf("STRIDE.start|%s|%s", fa.name, fa.ownerLabel(owner)),
+			Pos:  core.Pos(ix.Pos()), Func: fa.name,
+			Msg: fmt.Sprintf("strided index %q of %q is not anchored at the negative-increment start offset this routine computes for it: with a negative increment it addresses outside the vector",
+				types.ExprString(ix.Index), fa.ownerLabel(owner)),
+		})
+		return true
+	})
+}
+
 func (fa *funcAnalysis) check(body ast.Node) {
+	fa.checkContiguous(body)
+	fa.checkStartOffsets(body)
 	ast.Inspect(body, func(n ast.Node) bool {
 		switch x := n.(type) {
 		case *ast.IndexExpr:
@@ -684,6 +974,8 @@ func Run(cfg core.Config, scope core.Scope) *core.Result {
 		"STRIDE.index: every index/slice bound of an operand carries only that operand's own ld/inc/Stride unit",
 		"STRIDE.len: a comparison of len(p) with a required extent uses only p's own ld/inc/Stride",
 		"STRIDE.rowoffset: an index of a matrix operand never multiplies two non-constant quantities without its leading dimension",
+		"STRIDE.start: where a routine computes a negative-increment start offset for a vector, every strided index of that vector is anchored at it",
+		"STRIDE.contig: the Data of a strided vector is copied or ranged over as a contiguous slice only under a test of its Inc",
 		"STRIDE.walk: a matrix operand passed as a vector is walked with a constant increment or one derived from its own leading dimension",
 		"STRIDE.pair: at every call or struct literal a (slice, stride) pair refers to one operand")
 	res.Configs = append(res.Configs, cfg.String())
@@ -722,6 +1014,7 @@ func analyseFunc(res *core.Result, pkg *packages.Package, fd *ast.FuncDecl) {
 		ownerName:   map[string]string{},
 		alias:       map[types.Object]ast.Expr{},
 		inAlias:     map[types.Object]bool{},
+		incFlags:    map[types.Object]map[string]bool{},
 	}
 	obj, _ := pkg.TypesInfo.Defs[fd.Name].(*types.Func)
 	if obj == nil {
@@ -774,6 +1067,35 @@ func analyseFunc(res *core.Result, pkg *packages.Package, fd *ast.FuncDecl) {
 	}
 	fa.findAliases(fd.Body)
 	fa.fixpoint(fd.Body)
+	// boolean locals that record a test of some vector's Inc
+	ast.Inspect(fd.Body, func(n ast.Node) bool {
+		as, ok := n.(*ast.AssignStmt)
+		if !ok || len(as.Lhs) != len(as.Rhs) {
+			return true
+		}
+		for i, l := range as.Lhs {
+			id, ok := l.(*ast.Ident)
+			if !ok {
+				continue
+			}
+			o := core.ObjOf(fa.info, id)
+			if o == nil {
+				continue
+			}
+			ast.Inspect(as.Rhs[i], func(m ast.Node) bool {
+				if sel, ok := m.(*ast.SelectorExpr); ok && sel.Sel.Name == "Inc" {
+					if p, ok := fa.path(sel.X); ok {
+						if fa.incFlags[o] == nil {
+							fa.incFlags[o] = map[string]bool{}
+						}
+						fa.incFlags[o][p] = true
+					}
+				}
+				return true
+			})
+		}
+		return true
+	})
 	nunit := 0
 	for _, u := range fa.units {
 		if len(u) > 0 {
